@@ -70,8 +70,9 @@ CLAIMED = {
    text="Theorems (Props/C09.lean) about the executable model of the body operations, for an arbitrary scalar type with arbitrary arithmetic (so the garbage may be NaN or ±inf): VisEq relates two constructor-made bodies with the same "
         "confidences and frame rate that agree at every point whose confidence is not 0 (visEq_pointwise); related bodies show the same confidences, missing pattern and zero-filled coordinates (visEq_view); zero-filling yields exactly 0 at "
         "every missing point and leaves the others alone (zeroFilled_exact); frame / point selection, stepping and flip map related bodies to related bodies on every backend, and zero-fill, the NumPy matrix product, bounding boxes and "
-        "linear interpolation map them to the SAME body (…_ni); focus to related bodies and the same header dimensions (focus_ni); hence for EVERY program over these nine operations the two runs fail together or end with the same visible "
-        "result (run_ni, program_noninterference). Partial: normalisation, the spline interpolants, the masked-tensor representations, augmentation and serialisation are not in the Lean model — they are decided on the implementation by the "
+        "linear interpolation map them to the SAME body (…_ni); focus to related bodies and the same header dimensions (focus_ni); the two-point and the distribution normaliser compute the same statistics and related results "
+        "(Props/C09Norm: normalize_ni, normalizeDistribution_ni); hence for EVERY program over these eleven operations the two runs fail together or end with the same visible "
+        "result (run_ni, runN_ni, program_noninterference). Partial: the 3-D normaliser, the spline interpolants, the masked-tensor representations, augmentation and serialisation are not in the Lean model — they are decided on the implementation by the "
         "two-run check (two fillings of the missing slots incl. NaN / ±inf / ±3e38, same operation sequence, visible results compared exactly after every step, NumPy / torch / tensorflow). Known finding K4 (3-D normaliser).",
    technique="Lean 4 proof (relational two-run invariant over nested arrays, induction over programs) + differential two-run execution on three backends and model correspondence",
    design="§5 C09"),
@@ -104,12 +105,12 @@ CLAIMED = {
  "C13": dict(
    text="Theorems (Props/C13.lean) about the executable model of the three normalisers instantiated with the real numbers and Real.sqrt. Two-point normaliser, on a well-formed body of any shape: confidences and missing "
         "pattern unchanged, mean midpoint of the reference points at the origin, mean reference distance = requested scale (normalize_post); translating and uniformly scaling the input (a > 0) gives exactly the same body "
-        "(normalize_similarity_invariant) — via the lift lemma cellVals_mapCoords (a coordinate-wise map of a well-formed body maps every observed column value and nothing else). Distribution normaliser, per column: mean 0 "
-        "(distribution_mean_zero), deviation 1 (distribution_std_one), unnormalize restores (unnormalize_inverse). 3-D plane / line normaliser, per frame and person: first line point at the origin (line_p1_at_origin); plane "
+        "(normalize_similarity_invariant) — via the lift lemma cellVals_mapCoords (a coordinate-wise map of a well-formed body maps every observed column value and nothing else). Distribution normaliser: per column mean 0 "
+        "(distribution_mean_zero), deviation 1 (distribution_std_one), unnormalize restores (unnormalize_inverse), and on the body for axes (0, 1): every column with a non-zero deviation has mean 0 and deviation 1 afterwards, confidences and mask unchanged (normalizeDistribution_post). 3-D plane / line normaliser, per frame and person: first line point at the origin (line_p1_at_origin); plane "
         "points at z = 0 when the first line point is a plane point (plane_at_z0_partial — the unconditional statement is known finding K3); the line on the negative-Y half-plane with 3-D length = size (line_on_negative_y); "
         "translation and uniform-scale invariance (normalize3D_translation_invariant, normalize3D_scale_invariant); and the NEGATION of rotation invariance with an exact witness (not_rotation_invariant: z = −1/15 vs −1/25 "
         "after a 90° turn about Z) — known finding K2, replayed on the implementation on every run. Partial: float rounding; arctan2 / Rotation.from_euler modelled by cos θ = −v_y / r, sin θ = v_x / r (the model agrees with scipy "
-        "on every generated case); the lift of the distribution theorems from a column to the body is checked on the implementation. All three normalisers are run on NumPy (and tensorflow for the first two) poses and "
+        "on every generated case); the lift of the distribution theorems to the body for axes (0, 1, 2) is checked on the implementation. All three normalisers are run on NumPy (and tensorflow for the first two) poses and "
         "compared with the postconditions, the invariances and the model.",
    technique="Lean 4 proof over ℝ (Mathlib: ring / field_simp / Real.sqrt lemmas; list-level lift lemmas) incl. a proved counter-example + differential correspondence and postcondition oracle on the implementation",
    design="§5 C13"),
